@@ -223,7 +223,7 @@ def bounds_oracle_suite(ctx):
 
 COPSYM = {"eq": "==", "ne": "!=", "gt": ">", "lt": "<", "ge": ">=", "le": "<=", "in_": "in", "notIn": "not in",
           "is_": "is", "isNot": "is not"}
-ATOM_TEXT = ["p", "q", "f(x)", "a < b < c", "not_p"]
+ATOM_TEXT = ["p", "q", "f(x)", "a < b < c", "x < 3 < z", "0 <= x < 2", "1 == x != z", "x > 1 >= 0", "not_p"]
 
 
 def gen_cond(r, depth=0):
@@ -290,6 +290,15 @@ def negate_suite(ctx):
                 s.disagreements.append({"cond": text, "c": c, "model": expf, "real": out, "what": "replace_negated_numeric_comparison differs"})
             s.count("flip")
             s.nt("flip:" + text)
+        # ... and on a negated opaque atom (comparison chains are atoms of the model: the rule must leave them alone)
+        if c[0] == "not" and c[1][0] == "atom" and rule is not None:
+            src = f"y = {text[1:-1]}\n"
+            out = tablegen.one_pass(rule, src).strip()[4:]
+            if norm(text) != norm(out):
+                s.disagreements.append({"cond": text, "c": c, "model": text, "real": out, "formula": text[1:-1],
+                                        "what": "replace_negated_numeric_comparison rewrites a negated chain / opaque condition that the model leaves alone"})
+            s.count("flip-atom")
+            s.nt("flip:" + text)
         if len(s.samples) < 2 and c[0] in ("and", "or"):
             s.samples.append({"suite": "negate", "cond": text, "negated": real})
     s.note = ("random conditions of depth <=3 over comparisons (10 operators incl. in/is), atoms, not, and/or; "
@@ -349,6 +358,52 @@ def parse_range_result(out):
     for c in comp.ifs:
         conds.extend(ast.unparse(v) for v in (c.values if isinstance(c, ast.BoolOp) else [c]))
     return ("range", args[0], args[1], conds)
+
+
+def negation_family():
+    """negated comparisons and comparison chains (1-3 links) with numeric literals in every position"""
+    ops = ["<", "<=", ">", ">=", "==", "!="]
+    out = []
+    for o1 in ops:
+        for (l, r) in (("x", "3"), ("3", "x"), ("x", "z"), ("x", "-1"), ("2.5", "x")):
+            out.append(f"not {l} {o1} {r}")
+        for o2 in ops:
+            for (a, b, c) in (("x", "3", "z"), ("0", "x", "5"), ("x", "z", "4"), ("1", "x", "z"), ("x", "z", "w"), ("x", "x", "2")):
+                out.append(f"not {a} {o1} {b} {o2} {c}")
+                out.append(f"not ({a} {o1} {b} {o2} {c})")
+    for (o1, o2, o3) in itertools.product(["<", "<=", ">=", "=="], repeat=3):
+        out.append(f"not 0 {o1} x {o2} z {o3} 5")
+    for e in ("not x in (1, 2)", "not x not in (1, 2)", "not x is None", "not 1 < x in (2, 3)", "not (x < 3) < z", "not x < 3 and z", "w and not x <= 2 < z", "not (not x < 1 < z)"):
+        out.append(e)
+    return list(dict.fromkeys(out))
+
+
+def negation_oracle(ctx):
+    """the property on the real rule: `not <comparison>` rewritten by replace_negated_numeric_comparison has the same value under every valuation"""
+    import tablegen
+    from pyrefact import fixes
+
+    s = Suite("negation-oracle", kind="oracle")
+    rule = getattr(fixes, "replace_negated_numeric_comparison", None)
+    for text in negation_family():
+        s.cases += 1
+        try:
+            out = tablegen.one_pass(rule, f"y = {text}\n").strip()[4:] if rule is not None else text
+        except Exception as ex:
+            s.disagreements.append({"formula": text, "what": f"replace_negated_numeric_comparison raised {ex!r}"})
+            continue
+        if norm(out) == norm(text):
+            s.count("unchanged")
+            continue
+        s.count("rewritten")
+        s.nt(text)
+        cex = equivalent(text, out, box=range(-2, 7))
+        if cex is not None:
+            s.disagreements.append({"formula": text, "out": out, "valuation": cex, "rule": "replace_negated_numeric_comparison",
+                                    "what": f"replace_negated_numeric_comparison: {text!r} -> {out!r} differ at {cex}"})
+    s.note = ("negated comparisons and comparison chains of 1-3 links over {<, <=, >, >=, ==, !=} with integer / float literals in every position, membership and identity tests, parenthesised and nested forms (fixed family): "
+              "every rewrite of replace_negated_numeric_comparison is evaluated before and after on the box [-2, 6]^n; non-trivial = the rule rewrites the expression")
+    return s
 
 
 def rangefold_suite(ctx):
@@ -559,7 +614,7 @@ def symmath_oracle(ctx):
 
 def suites(ctx):
     common.import_pyrefact()
-    return [bounds_suite(ctx), bounds_oracle_suite(ctx), negate_suite(ctx), negate_oracle(ctx), rangefold_suite(ctx),
+    return [bounds_suite(ctx), bounds_oracle_suite(ctx), negate_suite(ctx), negate_oracle(ctx), negation_oracle(ctx), rangefold_suite(ctx),
             rangefold_oracle(ctx), sumrange_suite(ctx), stepped_sum_oracle(ctx), symmath_oracle(ctx)]
 
 
@@ -661,7 +716,12 @@ def replay(ctx, inp):
     from pyrefact import symbolic_math as sm
 
     text = inp["formula"]
-    out = tablegen.one_pass(sm.simplify_boolean_expressions, f"y = {text}\n").strip()[4:]
+    rule = sm.simplify_boolean_expressions
+    if inp.get("rule") == "replace_negated_numeric_comparison":
+        from pyrefact import fixes
+
+        rule = fixes.replace_negated_numeric_comparison
+    out = tablegen.one_pass(rule, f"y = {text}\n").strip()[4:]
     cex = equivalent(text, out) if out != text else None
     print(f"{text!r} -> {out!r}; counterexample: {cex}")
     return cex is not None
